@@ -41,10 +41,95 @@ def allServices (p : GProg) : Nat → List Nat → List Nat → List (Nat × Nam
     ((modAt p m).services.map (fun s => (m, s.1))) ++
       allServices p f (queue ++ (modAt p m).includes.map (·.2)) (m :: seen)
 
-/-- Does the service part of `gen.Generate` return for the compiled program? -/
+/-! ### constants and defaults (gen/constant.go `ConstantValue`, gen/field.go) -/
+
+/-- `isPrimitiveType` / `canBeConstant` (gen/type.go) -/
+def isPrimitive (p : GProg) (σ : St) (t : LType) : Bool :=
+  match rootKind p (rootIn p σ t) with
+  | .bool | .int _ | .double | .string | .enum .. => true
+  | _ => false
+
+mutual
+
+/-- `ConstantValue(g, c, t)`: a reference to a constant of primitive type is rendered by
+name; a reference to any other constant is replaced by that constant's value, rendered
+recursively — without end if the value leads back to the reference. -/
+def genValue (p : GProg) (σ : St) : Nat → CV → Res Unit
+  | 0, _ => .fuel
+  | f + 1, v =>
+    match v with
+    | .cref cm cn =>
+      match lookupConst p cm cn with
+      | none => .ok ()
+      | some c =>
+        if isPrimitive p σ (constTypeIn p σ cm cn c) then .ok () else
+        match alookup (cm, cn) σ.cval with
+        | some cv => genValue p σ f cv
+        | none => .ok ()
+    | .list xs => genValues p σ f xs
+    | .set xs => genValues p σ f xs
+    | .map kvs => genPairs p σ f kvs
+    | .struct fs => genFields p σ f fs
+    | _ => .ok ()
+termination_by structural fuel => fuel
+
+def genValues (p : GProg) (σ : St) : Nat → List CV → Res Unit
+  | 0, _ => .fuel
+  | _ + 1, [] => .ok ()
+  | f + 1, x :: xs =>
+    match genValue p σ f x with
+    | .ok _ => genValues p σ f xs
+    | .err => .err
+    | .fuel => .fuel
+termination_by structural fuel => fuel
+
+def genPairs (p : GProg) (σ : St) : Nat → List (CV × CV) → Res Unit
+  | 0, _ => .fuel
+  | _ + 1, [] => .ok ()
+  | f + 1, (k, v) :: rest =>
+    match genValue p σ f k with
+    | .ok _ =>
+      match genValue p σ f v with
+      | .ok _ => genPairs p σ f rest
+      | .err => .err
+      | .fuel => .fuel
+    | .err => .err
+    | .fuel => .fuel
+termination_by structural fuel => fuel
+
+def genFields (p : GProg) (σ : St) : Nat → List (Name × CV) → Res Unit
+  | 0, _ => .fuel
+  | _ + 1, [] => .ok ()
+  | f + 1, (_, v) :: rest =>
+    match genValue p σ f v with
+    | .ok _ => genFields p σ f rest
+    | .err => .err
+    | .fuel => .fuel
+termination_by structural fuel => fuel
+
+end
+
+def allOk (g : CV → Res Unit) : List CV → Res Unit
+  | [] => .ok ()
+  | v :: vs =>
+    match g v with
+    | .ok _ => allOk g vs
+    | .err => .err
+    | .fuel => .fuel
+
+/-- every linked constant value and default the generator renders -/
+def allValues (σ : St) : List CV :=
+  σ.cval.map (·.2) ++ σ.sdflt.map (·.2) ++ σ.fdflt.map (·.2)
+
+/-- Do the recursive parts of `gen.Generate` return for the compiled program: the rendering
+of every constant and default, and the service recursion? -/
 def genServices (fuel : Nat) (c : Compiled) : Res Unit :=
-  match addServices c.st fuel (allServices c.prog (walkFuel c.prog) [0] []) [] with
-  | .ok _ => .ok ()
+  match allOk (genValue c.prog c.st fuel) (allValues c.st) with
+  | .ok _ =>
+    match addServices c.st fuel (allServices c.prog (walkFuel c.prog) [0] []) [] with
+    | .ok _ => .ok ()
+    | .err => .err
+    | .fuel => .fuel
   | .err => .err
   | .fuel => .fuel
 
